@@ -23,6 +23,7 @@ MODULES = {
         "graphs": {
             "msg": {"module": "MC_Midi", "cfg": "Graph_Midi_msg.cfg"},
             "wire": {"module": "MC_Midi", "cfg": "Graph_Midi_wire.cfg"},
+            "wirepb": {"module": "MC_Midi", "cfg": "Graph_Midi_wirepb.cfg"},
             "ctl": {"module": "MC_Midi", "cfg": "Graph_Midi_ctl.cfg"},
         },
     },
@@ -71,13 +72,13 @@ PROPS = {
     "C06": {
         "module": "midi",
         "mc": _MIDI_MC,
-        "graphs": [("midi", "wire", QT)],
+        "graphs": [("midi", "wire", QT), ("midi", "wirepb", QT)],
         "traces": [("midi", "framing", QT), ("midi", "short", QT)],
     },
     "C18": {
         "module": "midi",
         "mc": _MIDI_MC,
-        "graphs": [("midi", "ctl", QT)],
+        "graphs": [("midi", "ctl", QT), ("midi", "wirepb", QT)],
         "traces": [("midi", "ctl", QT), ("midi", "framing", QT)],
     },
 }
@@ -88,10 +89,10 @@ _LFO_SWEEP = ("lfo", "sweep", T, {"thorough": 16})
 PROPS.update({
     "C10": {
         "module": "lfo", "mc": _LFO_MC,
-        "traces": [("lfo", "shapes", QT), ("lfo", "freq", QT), _LFO_SWEEP],
+        "traces": [("lfo", "shapes", QT), ("lfo", "freq", QT), ("lfo", "extreme", QT), _LFO_SWEEP],
         "rule": "distinct table cells (of 1024) whose phases were read out; thorough: all 2^24 phases",
     },
-    "C11": {"module": "lfo", "mc": _LFO_MC, "traces": [("lfo", "freq", QT), ("lfo", "shapes", QT)]},
+    "C11": {"module": "lfo", "mc": _LFO_MC, "traces": [("lfo", "freq", QT), ("lfo", "shapes", QT), ("lfo", "extreme", QT)]},
     "C12": {"module": "lfo", "mc": _LFO_MC, "traces": [("lfo", "shapes", QT), _LFO_SWEEP]},
 })
 
